@@ -5,7 +5,7 @@ use gm_sm3::sm3_hash;
 
 use crate::error::{Sm2Error, Sm2Result};
 use crate::fields::FieldModOperation;
-use crate::fields::fn64::{fn_add, fn_mul, fn_pow, fn_sub, SM2_N, SM2_N_MINUS_TWO};
+use crate::fields::fn64::{fn_add, fn_mul, fn_pow, fn_reduce, fn_sub, SM2_N, SM2_N_MINUS_TWO};
 use crate::fields::fp64::{fp_from_mont, random_u256};
 use crate::p256_ecc::{g_mul, Point};
 use crate::u256::{SM2_ONE, U256, u256_add, u256_cmp, u256_from_be_bytes};
@@ -144,8 +144,8 @@ impl Sm2PublicKey {
         let s_g = g_mul(&s);
         let t_p = pk.scalar_mul(&t);
         let p = s_g.point_add(&t_p).to_affine_point();
-        let x1 = u256_from_be_bytes(&fp_from_mont(&p.x).to_byte_be());
-        let e = u256_from_be_bytes(&digest);
+        let x1 = fn_reduce(&u256_from_be_bytes(&fp_from_mont(&p.x).to_byte_be()));
+        let e = fn_reduce(&u256_from_be_bytes(&digest));
         let r1 = fn_add(&x1, &e);
         return if u256_cmp(r, &r1) == 0 {
             Ok(())
@@ -220,13 +220,13 @@ impl Sm2PrivateKey {
         if digest.len() != 32 {
             return Err(Sm2Error::InvalidDigestLen);
         }
-        let e = u256_from_be_bytes(&digest);
+        let e = fn_reduce(&u256_from_be_bytes(&digest));
         let n = &SM2_N;
         let s1 = fn_pow(&u256_add(&SM2_ONE, &sk).0, &SM2_N_MINUS_TWO);
         loop {
             let k = random_u256();
             let p_x = g_mul(&k).to_affine_point();
-            let x1 = u256_from_be_bytes(&fp_from_mont(&p_x.x).to_byte_be());
+            let x1 = fn_reduce(&u256_from_be_bytes(&fp_from_mont(&p_x.x).to_byte_be()));
             let r = fn_add(&e, &x1);
             if r.is_zero() || u256_add(&r, &k).0 == *n {
                 continue;
